@@ -377,9 +377,16 @@ def _deep(x):
 
 
 def _zeros(shape, *a, **k):
-    out = np.empty(shape if isinstance(shape, (tuple, list)) else (int(shape),), dtype=object)
+    d = k.get('dtype', a[0] if a else None)
+    shp = tuple(int(x) for x in shape) if isinstance(shape, (tuple, list)) else (int(shape),)
+    if d is not None and _is_bool_dtype(d):
+        return np.zeros(shp, dtype=bool)
+    out = np.empty(shp, dtype=object)
     out[...] = sp.Integer(0)
     return out
+
+
+_zeros._wants_dtype = True
 
 
 def _fill(shape, v):
@@ -388,10 +395,20 @@ def _fill(shape, v):
     return out
 
 
+def _is_bool_dtype(d):
+    return d is bool or d is np.bool_ or getattr(d, '_is_bool', False) or (isinstance(d, str) and d in ('bool', '?', 'bool_')) or (isinstance(d, OpaqueFn) and d.name in ('numpy.bool_', 'numpy.bool', 'bool'))
+
+
 def _ones(shape, *a, **k):
+    d = k.get('dtype', a[0] if a else None)
     out = _zeros(shape)
+    if _is_bool_dtype(d):
+        return np.ones(out.shape, dtype=bool)
     out[...] = sp.Integer(1)
     return out
+
+
+_ones._wants_dtype = True
 
 
 def _identity(n, *a, **k):
@@ -430,7 +447,7 @@ NP_FUNCS = {
     'numpy.log': lambda x: vmap(sp.log, x), 'numpy.exp': lambda x: vmap(sp.exp, x),
     'numpy.sqrt': lambda x: vmap(sp.sqrt, x), 'numpy.abs': lambda x: vmap(sp.Abs, x), 'numpy.absolute': lambda x: vmap(sp.Abs, x),
     'numpy.sign': lambda x: vmap(sp.sign, x), 'numpy.floor': lambda x: vmap(sp.floor, x), 'numpy.ceil': lambda x: vmap(sp.ceiling, x),
-    'numpy.rint': lambda x: x, 'numpy.round': lambda x, *a: x,
+    'numpy.rint': lambda x: _rint(x), 'numpy.round': lambda x, decimals=0: (_rint(x) if decimals == 0 and all(sp.sympify(v).is_number for v in np.ravel(x)) else x),
     'numpy.radians': lambda x: vmap(lambda e: e * sp.pi / 180, x), 'numpy.degrees': lambda x: vmap(lambda e: e * 180 / sp.pi, x),
     'numpy.dot': lambda a, b: np.dot(a, b), 'numpy.inner': lambda a, b: np.inner(a, b), 'numpy.outer': lambda a, b: np.outer(a, b),
     'numpy.cross': lambda a, b: np.cross(a, b), 'numpy.einsum': lambda spec, *ops: np.einsum(spec, *[np.asarray(o, dtype=object) for o in ops]),
@@ -444,13 +461,34 @@ NP_FUNCS = {
     'numpy.vstack': lambda xs: np.vstack([np.asarray(x, dtype=object) for x in xs]),
     'numpy.hstack': lambda xs: np.hstack([np.asarray(x, dtype=object) for x in xs]),
     'numpy.concatenate': lambda xs, axis=0: np.concatenate([np.asarray(x, dtype=object) for x in xs], axis=axis),
-    'numpy.all': lambda x, **k: _all(x), 'numpy.any': lambda x, **k: _any(x),
+    'numpy.all': lambda x, axis=None, **k: _reduce_axis(_all, x, axis, **k), 'numpy.any': lambda x, axis=None, **k: _reduce_axis(_any, x, axis, **k),
     'numpy.mean': lambda x, axis=None: np.sum(x, axis=axis) / (S(x.size) if axis is None else S(x.shape[axis])),
     'numpy.conj': lambda x: vmap(sp.conjugate, x),
-    'numpy.min': lambda x, **k: sp.Min(*np.asarray(x, dtype=object).flat), 'numpy.max': lambda x, **k: sp.Max(*np.asarray(x, dtype=object).flat),
-    'numpy.amin': lambda x, **k: sp.Min(*np.asarray(x, dtype=object).flat), 'numpy.amax': lambda x, **k: sp.Max(*np.asarray(x, dtype=object).flat),
+    'numpy.min': lambda x, axis=None, **k: _reduce_axis(_minof, x, axis, **k), 'numpy.max': lambda x, axis=None, **k: _reduce_axis(_maxof, x, axis, **k),
+    'numpy.amin': lambda x, axis=None, **k: _reduce_axis(_minof, x, axis, **k), 'numpy.amax': lambda x, axis=None, **k: _reduce_axis(_maxof, x, axis, **k),
     'numpy.logical_not': lambda x: (not x) if isinstance(x, bool) else np.array([not v if isinstance(v, (bool, np.bool_)) else sp.Not(v) for v in np.asarray(x, dtype=object).flat], dtype=object).reshape(np.shape(x)),
     'numpy.where': _np_where,
+    'numpy.flatnonzero': lambda x: np.array([i for i, v in enumerate(np.ravel(np.asarray(x, dtype=object))) if _truth(v)], dtype=int),
+    'numpy.nonzero': lambda x: _np_where(x),
+    'numpy.count_nonzero': lambda x, axis=None, **k: _reduce_axis(lambda a: sp.Integer(sum(1 for v in np.ravel(a) if _truth(v))), x, axis, **k),
+    'numpy.argmax': lambda x, axis=None, **k: _reduce_axis(lambda a: sp.Integer(max(range(a.size), key=lambda i: (sp.sympify(np.ravel(a)[i]), -i))), x, axis, **k),
+    'numpy.argmin': lambda x, axis=None, **k: _reduce_axis(lambda a: sp.Integer(min(range(a.size), key=lambda i: (sp.sympify(np.ravel(a)[i]), i))), x, axis, **k),
+    'numpy.prod': lambda x, axis=None, **k: _reduce_axis(lambda a: sp.Mul(*np.ravel(a)), x, axis, **k),
+    'numpy.moveaxis': lambda a, s_, d: np.moveaxis(np.asarray(a, dtype=object), s_, d), 'numpy.swapaxes': lambda a, i, j: np.swapaxes(np.asarray(a, dtype=object), int(i), int(j)),
+    'numpy.expand_dims': lambda a, axis: np.expand_dims(np.asarray(a, dtype=object), axis), 'numpy.squeeze': lambda a, axis=None: np.squeeze(np.asarray(a, dtype=object), axis=axis),
+    'numpy.reshape': lambda a, shape: np.reshape(np.asarray(a, dtype=object), shape), 'numpy.ravel': lambda a: np.ravel(np.asarray(a, dtype=object)),
+    'numpy.tile': lambda a, reps: np.tile(np.asarray(a, dtype=object), reps), 'numpy.repeat': lambda a, r, axis=None: np.repeat(np.asarray(a, dtype=object), r, axis=axis),
+    'numpy.column_stack': lambda xs: np.column_stack([np.asarray(x, dtype=object) for x in xs]),
+    'numpy.array_equal': lambda a, b: bool(np.shape(a) == np.shape(b) and all(is_zero(sp.sympify(x) - sp.sympify(y), deep=False) for x, y in zip(np.ravel(np.asarray(a, dtype=object)), np.ravel(np.asarray(b, dtype=object))))),
+    'numpy.square': lambda x: vmap(lambda e: e ** 2, x), 'numpy.negative': lambda x: vmap(lambda e: -e, x), 'numpy.fabs': lambda x: vmap(sp.Abs, x),
+    'numpy.hypot': lambda a, b: vmap(sp.sqrt, np.asarray(a, dtype=object) ** 2 + np.asarray(b, dtype=object) ** 2) if is_arr(a) or is_arr(b) else sp.sqrt(a ** 2 + b ** 2),
+    'numpy.ndim': lambda x: np.ndim(x), 'numpy.shape': lambda x: np.shape(x), 'numpy.size': lambda x: np.size(x),
+    'numpy.isscalar': lambda x: not is_arr(x) and not isinstance(x, (list, tuple)),
+    'numpy.matmul': lambda a, b: np.matmul(np.asarray(a, dtype=object), np.asarray(b, dtype=object)), 'numpy.tensordot': lambda a, b, axes=2: np.tensordot(np.asarray(a, dtype=object), np.asarray(b, dtype=object), axes=axes),
+    'numpy.linalg.multi_dot': lambda xs: __import__('functools').reduce(np.dot, [np.asarray(x, dtype=object) for x in xs]),
+    'numpy.minimum': lambda a, b: _ew2(sp.Min, a, b), 'numpy.maximum': lambda a, b: _ew2(sp.Max, a, b),
+    'numpy.clip': lambda x, lo, hi: vmap(lambda e: sp.Max(lo, sp.Min(hi, e)), x),
+    'numpy.logical_and': lambda a, b: _band(a, b), 'numpy.logical_or': lambda a, b: _bor(a, b),
     'numpy.real': lambda x: vmap(sp.re, x), 'numpy.imag': lambda x: vmap(sp.im, x),
     'copy.deepcopy': lambda x: _copy(x), 'copy.copy': lambda x: _copy(x),
 }
@@ -463,6 +501,67 @@ def _copy(x):
     if isinstance(x, list):
         return [_copy(v) for v in x]
     return x
+
+
+def _reduce_axis(f, x, axis=None, keepdims=False, **k):
+    """apply a whole-array reduction model along one axis (numpy semantics); unknown keywords are refused, not ignored"""
+    extra = {kk: v for kk, v in k.items() if kk not in ('out', 'dtype') and v is not None}
+    if extra:
+        raise Opaque('reduction keyword(s) %s are outside the model' % sorted(extra))
+    a = np.asarray(x, dtype=object) if not is_arr(x) else x
+    if axis is None:
+        r = f(a)
+        return np.array(r, dtype=object).reshape((1,) * a.ndim) if keepdims else r
+    if isinstance(axis, (tuple, list)):
+        raise Opaque('reduction over several axes')
+    ax = int(axis)
+    if not -a.ndim <= ax < max(a.ndim, 1):
+        raise ModelError('AxisError', 'axis %d is out of bounds for array of dimension %d' % (ax, a.ndim))
+    ax %= max(a.ndim, 1)
+    moved = np.moveaxis(a, ax, -1)
+    out = np.empty(moved.shape[:-1], dtype=object)
+    for i in np.ndindex(out.shape):
+        out[i] = f(moved[i])
+    if out.ndim == 0:
+        out = out[()]
+    elif all(isinstance(v, (bool, np.bool_)) for v in out.flat):
+        out = out.astype(bool)
+    return np.expand_dims(out, ax) if keepdims else out
+
+
+def _minof(a):
+    if np.size(a) == 0:
+        raise ModelError('ValueError', 'zero-size array to reduction operation minimum which has no identity')
+    return sp.Min(*np.asarray(a, dtype=object).flat)
+
+
+def _maxof(a):
+    if np.size(a) == 0:
+        raise ModelError('ValueError', 'zero-size array to reduction operation maximum which has no identity')
+    return sp.Max(*np.asarray(a, dtype=object).flat)
+
+
+def _rint(x):
+    def one(v):
+        v = sp.sympify(v)
+        if v.is_integer:
+            return v
+        if v.is_Rational:
+            return sp.Integer(round(v))          # Python rounds exact fractions half to even, as numpy does
+        if v.is_Float:
+            return sp.Integer(round(float(v)))
+        return sp.floor(v + sp.Rational(1, 2))   # symbolic: nearest integer up to the tie rule
+    return vmap(one, x)
+
+
+def _ew2(f, a, b):
+    if is_arr(a) or is_arr(b) or isinstance(a, (list, tuple)) or isinstance(b, (list, tuple)):
+        A, B = np.broadcast_arrays(np.asarray(a, dtype=object), np.asarray(b, dtype=object))
+        out = np.empty(A.shape, dtype=object)
+        for i in np.ndindex(A.shape):
+            out[i] = f(A[i], B[i])
+        return out
+    return f(a, b)
 
 
 def _all(x):
@@ -556,7 +655,7 @@ class SymEval:
         self.text_mode = False  # f-strings / %-formatting become Text values
         self.try_depth = 0
         self.fn_stack = []
-        self.module = None      # ast.Module: module-level `NAME = {}` / `[]` / constant bindings become visible (one fresh object per evaluator)
+        self.module = getattr(aliases, 'module', None)      # ast.Module: module-level `NAME = {}` / `[]` / constant bindings become visible (one fresh object per evaluator)
         self.np_override = {}   # dotted numpy name -> model function (consulted before NP_FUNCS)
         self.globals = {}       # module-level names visible in every inlined function (rule-provided models of imports)
 
@@ -610,17 +709,72 @@ class SymEval:
             return _ClassRef(n.id)
         if n.id in self.funcs:
             return Closure(self.funcs[n.id], self)
+        if self.module is not None:
+            for st in self.module.body:      # a helper function of the module under analysis
+                if isinstance(st, ast.FunctionDef) and st.name == n.id:
+                    return Closure(st, self)
         g = self.resolve_global(n)
         if g in self.np_override:
             return self.np_override[g]
         if g in NP_FUNCS:
             return NP_FUNCS[g]
         if n.id in ('range', 'len', 'int', 'float', 'abs', 'sum', 'min', 'max', 'list', 'tuple', 'isinstance', 'complex', 'round', 'zip', 'enumerate', 'str'):
+            if n.id == 'len':
+                def _len(x):
+                    if isinstance(x, SymObj):
+                        ln, _c = x.lookup('__len__')
+                        if ln is None:
+                            raise Opaque('len() of %s' % x.name)
+                        return self.call_fn(ln, [x], {}, p)
+                    return len(x)
+                return _len
             return {'range': lambda *a: list(range(*[int(x) for x in a])), 'len': len, 'int': lambda x: (S(int(x)) if isinstance(x, str) else x), 'float': lambda x: (S(int(x)) if isinstance(x, str) and x.strip().lstrip('+-').isdigit() else (S(float(x)) if isinstance(x, str) else x)),
                     'abs': lambda x: sp.Abs(x), 'sum': lambda x: sum(x), 'min': lambda *a: sp.Min(*(a[0] if len(a) == 1 else a)),
                     'max': lambda *a: sp.Max(*(a[0] if len(a) == 1 else a)), 'list': list, 'tuple': tuple,
                     'isinstance': lambda *a: Opaque, 'complex': lambda a, b=0: a + sp.I * b, 'round': lambda x, n=0: x,
                     'zip': lambda *a: list(zip(*a)), 'enumerate': lambda a: list(enumerate(a)), 'str': str}[n.id]
+        if n.id == 'iter':
+            return lambda x: _ModelIter(self.iterate(x, n))
+        if n.id == 'next':
+            def _next(it, *default):
+                if not isinstance(it, _ModelIter):
+                    raise Opaque('next() of %s' % type(it).__name__)
+                try:
+                    return next(it)
+                except StopIteration:
+                    if default:
+                        return default[0]
+                    raise ModelError('StopIteration', 'iterator exhausted')
+            return _next
+        if n.id == 'reversed':
+            return lambda x: list(reversed(self.iterate(x, n)))
+        if n.id == 'setattr':
+            def _setattr(o, a, v):
+                if isinstance(o, SymObj):
+                    self.setattr(o, a, v, p) if hasattr(self, 'setattr') else o.attrs.__setitem__(a, v)
+                elif isinstance(o, PyStub):
+                    setattr(o, a, v)
+                else:
+                    raise Opaque('setattr on %s' % type(o).__name__)
+            return _setattr
+        if n.id == 'getattr':
+            def _getattr(o, a, *default):
+                try:
+                    return self.getattr(o, a, n, p)
+                except Opaque:
+                    if default:
+                        return default[0]
+                    raise
+            return _getattr
+        if n.id in ('divmod', 'pow', 'format', 'repr', 'frozenset', 'map', 'filter', 'type', 'id', 'callable', 'slice', 'print'):
+            if n.id == 'print':
+                return lambda *a, **k: None
+            if n.id == 'map':
+                return lambda f, *xs: [f(*t) for t in zip(*[self.iterate(x, n) for x in xs])]
+            if n.id == 'filter':
+                return lambda f, xs: [v for v in self.iterate(xs, n) if self.truth(f(v) if f is not None else v, n, p) is True]
+            if n.id in ('divmod', 'pow', 'format', 'repr', 'frozenset', 'callable', 'slice'):
+                return {'divmod': lambda a, b: (a // b, a % b), 'pow': lambda a, b: a ** b, 'format': format, 'repr': repr, 'frozenset': frozenset, 'callable': callable, 'slice': slice}[n.id]
         if n.id == 'hasattr':
             def _hasattr(o, a):
                 if isinstance(o, SymObj):
@@ -630,7 +784,9 @@ class SymEval:
                 raise Opaque('hasattr on %s' % type(o).__name__)
             return _hasattr
         if n.id == 'bool':
-            return lambda x: self.truth(x, n, p)
+            f = lambda x=False: self.truth(x, n, p)
+            f._is_bool = True          # also used as a dtype
+            return f
         if n.id == 'all':
             return lambda x: _all(list(x))
         if n.id == 'any':
@@ -695,7 +851,13 @@ class SymEval:
             if isinstance(n.op, ast.Add) and isinstance(a, (str, Text, StrLike)) and isinstance(b, (str, Text, StrLike)):
                 return a + b
             if isinstance(n.op, ast.Mod) and isinstance(a, str):
-                return Text([('fmt', a, tuple(b) if isinstance(b, (tuple, list)) else (b,))])
+                vals = tuple(b) if isinstance(b, (tuple, list)) else (b,)
+                if not self.text_mode and all(isinstance(v, (str, int, sp.Integer)) and not isinstance(v, bool) for v in vals):
+                    try:
+                        return a % tuple(int(v) if isinstance(v, sp.Integer) else v for v in vals)       # concrete values: the text itself
+                    except (TypeError, ValueError) as e:
+                        raise WouldRaise('%s: %s in %s' % (type(e).__name__, e, norm(n)))
+                return Text([('fmt', a, vals)])
             if isinstance(n.op, ast.Mult) and isinstance(a, str) and isinstance(b, (int, sp.Integer)):
                 return a * int(b)
             raise Opaque('string arithmetic ' + norm(n))
@@ -829,12 +991,22 @@ class SymEval:
                     if isinstance(v, ast.Constant):
                         out.append(str(v.value))
                         continue
-                    if v.format_spec is not None or v.conversion != -1:
+                    if v.conversion != -1:
                         return norm(n)
+                    spec = ''
+                    if v.format_spec is not None:
+                        if not (isinstance(v.format_spec, ast.JoinedStr) and all(isinstance(c, ast.Constant) for c in v.format_spec.values)):
+                            return norm(n)
+                        spec = ''.join(str(c.value) for c in v.format_spec.values)
                     x = self.ev(v.value, p)
                     if isinstance(x, bool) or not (isinstance(x, (str, int, sp.Integer)) or (isinstance(x, PyStub) and '__format__' in type(x).__dict__)):
                         return norm(n)
-                    out.append(format(x) if isinstance(x, PyStub) else str(x))
+                    if spec:
+                        if isinstance(x, PyStub):
+                            return norm(n)
+                        out.append(format(int(x) if isinstance(x, sp.Integer) else x, spec))
+                    else:
+                        out.append(format(x) if isinstance(x, PyStub) else str(x))
             except (Opaque, WouldRaise, _PyRaise):
                 return norm(n)
             return ''.join(out)
@@ -850,17 +1022,40 @@ class SymEval:
             return ''.join(t.pieces)
         return t
 
+    def _comp_envs(self, generators, p):
+        """environments of a comprehension: nested `for` clauses with decided `if` filters"""
+        envs = [p]
+        for g in generators:
+            nxt = []
+            for q0 in envs:
+                it = self.ev(g.iter, q0)
+                for v in self.iterate(it, g.iter):
+                    q = q0.fork()
+                    q.conds = q0.conds
+                    self.assign(g.target, v, q)
+                    keep = True
+                    for cond in g.ifs:
+                        t = self.truth(self.ev(cond, q), cond, q)
+                        if t is None:
+                            raise Opaque('comprehension filter not decided: ' + norm(cond))
+                        if not t:
+                            keep = False
+                            break
+                    if keep:
+                        nxt.append(q)
+            envs = nxt
+        return envs
+
     def e_ListComp(self, n, p):
-        if len(n.generators) != 1 or n.generators[0].ifs:
-            raise Opaque(norm(n))
-        g = n.generators[0]
-        it = self.ev(g.iter, p)
-        out = []
-        for v in self.iterate(it, g.iter):
-            q = p.fork()
-            q.conds = p.conds
-            self.assign(g.target, v, q)
-            out.append(self.ev(n.elt, q))
+        return [self.ev(n.elt, q) for q in self._comp_envs(n.generators, p)]
+
+    def e_SetComp(self, n, p):
+        return set(self.ev(n.elt, q) for q in self._comp_envs(n.generators, p))
+
+    def e_DictComp(self, n, p):
+        out = {}
+        for q in self._comp_envs(n.generators, p):
+            out[self.ev(n.key, q)] = self.ev(n.value, q)
         return out
 
     e_GeneratorExp = e_ListComp
@@ -874,6 +1069,10 @@ class SymEval:
             return list(it)
         if isinstance(it, dict):
             return list(it.keys())
+        if isinstance(it, (range, zip, map, enumerate, reversed, set, frozenset, type({}.items()), type({}.keys()), type({}.values()))) or isinstance(it, _ModelIter):
+            return list(it)
+        if isinstance(it, str):
+            return list(it)
         raise Opaque('loop over non-literal iterable ' + norm(node))
 
     def e_Attribute(self, n, p):
@@ -932,15 +1131,11 @@ class SymEval:
             if attr == 'imag':
                 return vmap(sp.im, base)
             if attr in ('min', 'max'):
-                def _minmax(axis=None, **k):
-                    if base.size == 0:
-                        raise ModelError('ValueError', 'zero-size array to reduction operation %s which has no identity' % attr)
-                    return (sp.Min if attr == 'min' else sp.Max)(*base.flat)
-                return _minmax
+                return lambda axis=None, **k: _reduce_axis(_minof if attr == 'min' else _maxof, base, axis, **k)
             if attr in ('dot', 'sum', 'copy', 'transpose', 'conjugate', 'conj', 'reshape', 'tolist', 'all', 'any', 'flatten', 'astype', 'prod'):
                 return {'dot': lambda b: np.dot(base, b), 'sum': lambda axis=None: np.sum(base, axis=axis), 'copy': lambda: base.copy(),
                         'transpose': lambda *a: base.transpose(*a), 'conjugate': lambda: vmap(sp.conjugate, base), 'conj': lambda: vmap(sp.conjugate, base),
-                        'reshape': lambda *a: base.reshape(*a), 'tolist': lambda: base.tolist(), 'all': lambda **k: _all(base), 'any': lambda **k: _any(base),
+                        'reshape': lambda *a: base.reshape(*a), 'tolist': lambda: base.tolist(), 'all': lambda axis=None, **k: _reduce_axis(_all, base, axis, **k), 'any': lambda axis=None, **k: _reduce_axis(_any, base, axis, **k),
                         'flatten': lambda *a, **k: base.flatten(*a, **k), 'astype': lambda *a, **k: base, 'prod': lambda: sp.Mul(*base.flat)}[attr]
             if attr == 'ravel':
                 return lambda *a, **k: base.ravel(*a, **k)
@@ -1015,6 +1210,10 @@ class SymEval:
         try:
             if isinstance(base, PyStub):
                 return base[idx]
+            if isinstance(base, SymObj):
+                gi, _c = base.lookup('__getitem__')
+                if gi is not None:
+                    return self.call_fn(gi, [base, idx], {}, p)
             if isinstance(base, dict):
                 if idx not in base:
                     raise WouldRaise('KeyError: %s in %s' % (idx, norm(n)))
@@ -1052,7 +1251,9 @@ class SymEval:
         if isinstance(v, sp.Integer):
             return int(v)
         if isinstance(v, tuple) and any(is_arr(x) for x in v):
-            return tuple(v)            # multi-dimensional fancy index, e.g. the tuple returned by np.where
+            return tuple(_intidx(x) for x in v)            # multi-dimensional fancy index, e.g. the tuple returned by np.where
+        if is_arr(v) and v.dtype == object:
+            return _intidx(v)
         if isinstance(v, (list, tuple)):
             if v and all(isinstance(x, bool) for x in v):
                 return np.array(v, dtype=bool)
@@ -1503,8 +1704,11 @@ class SymEval:
 
     def s_With(self, s, p):
         for it in s.items:
+            cm = self.ev(it.context_expr, p)
+            if isinstance(cm, PyStub) and hasattr(cm, '__enter__'):
+                cm = cm.__enter__()
             if it.optional_vars is not None:
-                self.assign(it.optional_vars, self.ev(it.context_expr, p), p)
+                self.assign(it.optional_vars, cm, p)
         return self.block(s.body, [p])
 
     def s_FunctionDef(self, s, p):
@@ -1526,9 +1730,42 @@ def _as_load(t):
 
 # ---------------------------------------------------------------- convenience
 
+def _intidx(x):
+    """an index array of exact integers (or decided booleans) as a numpy index array"""
+    if is_arr(x) and x.dtype == object and x.size:
+        flat = list(x.ravel())
+        if all(isinstance(e, (bool, np.bool_)) or e is sp.true or e is sp.false for e in flat):
+            return np.array([bool(e) for e in flat], dtype=bool).reshape(x.shape)
+        if all(isinstance(e, (int, np.integer, sp.Integer)) and not isinstance(e, (bool, np.bool_)) for e in flat):
+            return np.array([int(e) for e in flat], dtype=int).reshape(x.shape)
+    return x
+
+
+class _ModelIter:
+    """iterator object produced by the builtin iter() on a model sequence: consumed by next() and by loops, as in Python"""
+    def __init__(self, items):
+        self.items = list(items)
+        self.pos = 0
+
+    def __iter__(self):
+        return self
+
+    def __next__(self):
+        if self.pos >= len(self.items):
+            raise StopIteration
+        self.pos += 1
+        return self.items[self.pos - 1]
+
+
+class _Aliases(dict):
+    module = None
+
+
 def module_aliases(mod):
-    """import aliases of a module: local name -> dotted path"""
-    out = {}
+    """import aliases of a module: local name -> dotted path (the mapping remembers the module, so that an evaluator built from it
+    resolves the module's own helper functions and constants)"""
+    out = _Aliases()
+    out.module = mod
     for n in ast.walk(mod):
         if isinstance(n, ast.Import):
             for a in n.names:
